@@ -77,6 +77,24 @@ CLAIMED = {
             'order with the option on, database flag set, round trip through .dbml, flag flips switch rendering, syntax error with the option '
             'off, and identical parse and renderings under both option values for documents without properties.',
             'DESIGN.md 6/C15', 'Two open findings (key with a keyword prefix; property after a newline in a settings list).'),
+    'C11': ('Sequences parse(A); parse(B); parse(A) where B is valid, syntactically faulty (symbolic garbage character), fails in the build '
+            'stage, or is parsed with other options: equal content for A both times; two results of one document share no object and '
+            'edits to one (project items, properties, notes, tables, names, enum items, index subjects) change neither the other nor a '
+            'later parse. Re-entrancy and no-retention are decided through NON-INTERFERENCE: a write monitor over every pre-existing grammar '
+            'element plus a fingerprint of the grammar graph, blueprint / parser classes and definitions modules must show no change.',
+            'DESIGN.md 6/C11', 'Thread schedules are not explored and the garbage collector is not modelled: the concurrency clause rests on '
+            'the non-interference argument (stated assumptions), the reclaim clause is only checked by weakref + gc in the untraced native runs.'),
+    'C14': ('A comment (// or /* */, own line or end of line, K-character symbolic body with quotes, braces and syntax characters) at every '
+            'line boundary of six base documents and at the inline positions before settings lists changes nothing but comment attributes; '
+            'comments above / trailing / both / multi-line are stored on the element they belong to (table, enum, enum item, index, '
+            'reference short and block, project, group, column); an element with a symbolic comment renders to DBML that re-parses to '
+            'the same comment and to SQL whose statements are unchanged, with every comment line emitted as a -- line.',
+            'DESIGN.md 6/C14', 'Open finding c14_column_comment_above; two grammar defects found by the check were repaired (fix: commits).'),
+    'C16': ('Default renderers: each table / enum / standalone reference / group / sticky note / project text appears exactly once in the '
+            'database text, for every evaluation order of element and database renderings, with no side effect on the model. Custom '
+            'partial renderer classes (handler masks fanned out) given to Database or passed through the parser: attached elements and '
+            'their columns render through them, unhandled types give the empty string, detached elements use the defaults.',
+            'DESIGN.md 6/C16', ''),
 }
 _PENDING = 'check under construction in this session (harness not yet committed); not claimed until it runs clean on the unchanged tree'
-NOT_APPLICABLE = {f'C{i:02d}': _PENDING for i in range(1, 19) if f'C{i:02d}' not in CLAIMED}
+NOT_APPLICABLE = {f'C{i:02d}': _PENDING for i in range(1, 19) if f'C{i:02d}' not in CLAIMED}   # empty: every property is claimed
